@@ -339,6 +339,14 @@ let run_case oc (line : string) =
                     out_s out
                   end
                 end)
+            | "PQ" ->
+                (* concurrent queries of an immutable object: in the model every lookup is a pure function of the
+                   (unchanged) object, so all threads agree by construction; the op exists to check that on the code *)
+                let n = int_of_string a.(2) in
+                if n < 1 || n > 64 then "X"
+                else (match kind_of (sloti 1) with
+                      | Rodeo.OReader _ | Rodeo.OResolver _ | Rodeo.OThreaded _ -> "T"
+                      | _ -> "X")
             | "EQ" -> out_s (do_step (Rodeo.EqOp (slot 1, slot 2)))
             | "FI" ->
                 if not (L.mem a.(1) [ "r"; "t" ] && L.mem a.(2) [ "exact"; "none"; "low"; "high" ]) then "X"
